@@ -352,13 +352,91 @@ fn exec_in(case: &Case, acmed: &std::path::Path, dir: &std::path::Path) -> Outco
 	Outcome::pass(case.ids.len() >= 2 && special, classes)
 }
 
+// ------------------------------------------------ a label is normalised on its own (metamorphic, in-crate probe)
+#[derive(Clone, Debug, Serialize, Deserialize)]
+pub struct LabelCase {
+	pub label: String,
+}
+
+fn label_strategy() -> impl Strategy<Value = LabelCase> {
+	// letters whose lower-case form depends on context or is not a single code point, beside ordinary ones
+	let ch = prop_oneof![
+		4 => proptest::sample::select(vec!['a', 'b', 'Z', 'Q', 'm', 'X', '7', '0']),
+		3 => proptest::sample::select(vec!['\u{3a3}', '\u{3c3}', '\u{3c2}', '\u{39f}', '\u{394}', '\u{3b1}']),
+		2 => proptest::sample::select(vec!['\u{130}', '\u{131}', '\u{df}', '\u{1e9e}', '\u{212a}', '\u{212b}', '\u{1c5}', '\u{c9}', '\u{e9}', '\u{dc}', '\u{4e2d}', '\u{ff21}']),
+		1 => Just('-'),
+	];
+	proptest::collection::vec(ch, 1..=8).prop_map(|v| {
+		let mut l: String = v.into_iter().collect();
+		// a label neither starts nor ends with a hyphen
+		l = l.trim_matches('-').to_string();
+		if l.is_empty() {
+			l.push('a');
+		}
+		LabelCase { label: l }
+	})
+}
+
+fn exec_label(case: &LabelCase) -> Outcome {
+	let acmed = match build::acmed_inst() {
+		Ok(p) => p,
+		Err(e) => return Outcome::Infra(e),
+	};
+	let mut probe = match crate::probe::Probe::spawn(&acmed) {
+		Ok(p) => p,
+		Err(e) => return Outcome::Infra(e),
+	};
+	let l = &case.label;
+	// (configured name, index of the label under test)
+	let contexts: Vec<(String, usize)> = vec![(format!("{l}.example"), 0), (format!("{l}.1example"), 0), (format!("{l}.EXAMPLE.org"), 0), (format!("www.{l}.example"), 1), (format!("a-b.{l}"), 1), (format!("*.{l}.example"), 1)];
+	let mut seen: Vec<(String, String)> = vec![];
+	let mut accepted = 0;
+	for (name, idx) in contexts.iter() {
+		let r = match probe.call(&json!({"op": "identifier", "type": "dns", "value": name, "challenge": "dns-01"})) {
+			Ok(v) => v,
+			Err(e) => return Outcome::fail("C01:identifier-crash", format!("normalising {name:?}: {e}")),
+		};
+		if r["accepted"].as_bool() != Some(true) {
+			continue;
+		}
+		accepted += 1;
+		let out = r["value"].as_str().unwrap_or("").to_string();
+		let Some(lab) = out.split('.').nth(*idx) else {
+			return Outcome::fail("C01:label-count", format!("{name:?} is ordered as {out:?}: a label was lost or added"));
+		};
+		if !out.is_ascii() || out != out.to_ascii_lowercase() {
+			return Outcome::fail("C01:not-lowercase-a-label", format!("{name:?} is ordered as {out:?}"));
+		}
+		seen.push((name.clone(), lab.to_string()));
+		// what was ordered is a fixed point
+		match probe.call(&json!({"op": "identifier", "type": "dns", "value": out, "challenge": "dns-01"})) {
+			Ok(v) if v["value"].as_str() == Some(out.as_str()) => {}
+			Ok(v) => return Outcome::fail("C01:normalisation-not-idempotent", format!("{name:?} is ordered as {out:?}, which is itself ordered as {:?}", v["value"])),
+			Err(e) => return Outcome::fail("C01:identifier-crash", format!("normalising {out:?}: {e}")),
+		}
+	}
+	if accepted != 0 && accepted != contexts.len() {
+		let ok: Vec<&String> = seen.iter().map(|s| &s.0).collect();
+		return Outcome::fail("C01:label-acceptance-depends-on-neighbours", format!("label {l:?}: accepted only in {ok:?} of {:?}", contexts.iter().map(|c| &c.0).collect::<Vec<_>>()));
+	}
+	if let Some((n0, a0)) = seen.first() {
+		if let Some((n1, a1)) = seen.iter().find(|(_, a)| a != a0) {
+			return Outcome::fail("C01:label-depends-on-neighbours", format!("label {l:?} is ordered as {a0:?} in {n0:?} but as {a1:?} in {n1:?}: the same configured label, two different names at the CA"));
+		}
+	}
+	let special = !l.is_ascii();
+	Outcome::pass(special && accepted > 0, vec![format!("accepted={}", accepted > 0), format!("non-ascii={special}"), format!("chars={}", l.chars().count())])
+}
+
 pub fn run(ctx: &Ctx, rep: &mut Report) {
-	rep.rule = "case = certificate configuration (1..8 identifiers: plain/wildcard/IDN/mixed-case DNS, IPv4, IPv6 in a random accepted spelling; key type; csr_digest spelling; subset of the 15 subject attributes; kp_reuse x pre-existing key file none/usable/garbage/usable key of another type) run through the real daemon against the fault-free strict mock CA (whose order object lists the identifiers as requested, in upper case or in reverse order) until the first post-operation record. Oracle: newOrder identifiers == expected normalised multiset (own punycode / RFC 5952), CSR DER (own walker): SAN multiset, subject RDNs, signatureAlgorithm OID, self-signature; CSR SPKI == SPKI of the key file snapshotted at post-operation; kp_reuse semantics; success reported. Non-trivial = >= 2 identifiers with at least one wildcard, IDN, mixed-case or non-canonical IPv6.".into();
+	rep.rule = "case = certificate configuration (1..8 identifiers: plain/wildcard/IDN/mixed-case DNS, IPv4, IPv6 in a random accepted spelling; key type; csr_digest spelling; subset of the 15 subject attributes; kp_reuse x pre-existing key file none/usable/garbage/usable key of another type) run through the real daemon against the fault-free strict mock CA (whose order object lists the identifiers as requested, in upper case or in reverse order) until the first post-operation record. Oracle: newOrder identifiers == expected normalised multiset (own punycode / RFC 5952), CSR DER (own walker): SAN multiset, subject RDNs, signatureAlgorithm OID, self-signature; CSR SPKI == SPKI of the key file snapshotted at post-operation; kp_reuse semantics; success reported. labels (metamorphic, through the daemon's identifier constructor in the probe): a label of 1..8 characters (ASCII, Greek incl. capital and final sigma, dotted/dotless i, sharp s, Kelvin and Angstrom signs, title-case digraph, accented, CJK, full-width) placed in six names (different neighbours, positions, a wildcard in front): accepted in all or in none, ordered as the same lowercase ASCII A-label everywhere, and the ordered name is a fixed point. Non-trivial = >= 2 identifiers with at least one wildcard, IDN, mixed-case or non-canonical IPv6.".into();
 	rep.assume("the mock CA behaves as RFC 8555 requires and offers every challenge type (dns-01 only for wildcards)");
 	run_replays::<Case>(ctx, rep, "bb", &exec);
+	run_replays::<LabelCase>(ctx, rep, "labels", &exec_label);
 	if ctx.replay.is_some() {
 		return;
 	}
 	let n = ctx.tier.pick(300, 5000);
 	run_prop(ctx, rep, "bb", &strategy(), n, default_par(), &exec);
+	run_prop(ctx, rep, "labels", &label_strategy(), ctx.tier.pick(600, 20000), default_par(), &exec_label);
 }
